@@ -1,11 +1,11 @@
 (** C03 -- Every setting comes from the highest-precedence level that defines
     it; load-order irrelevance; first existing suffix only.
     Statements only; proofs are in Proofs/C03_merge.v, C03_levels.v, C03_order.v,
-    C03_script.v, C03_envclause.v, C03_whole.v. *)
+    C03_script.v, C03_envclause.v, C03_whole.v, C03_mods.v. *)
 From Coq Require Import Permutation.
 From InvokeVerif Require Import Common.Tree Common.StrUtil Model.MergeModel Model.ConfigModel
      Spec.C03Spec Proofs.C03_merge Proofs.C03_levels Proofs.C03_order Proofs.C03_sweep
-     Corr.C03Corr Proofs.C03_script Proofs.C03_whole.
+     Corr.C03Corr Proofs.C03_script Proofs.C03_whole Spec.C03ModSpec Proofs.C03_mods.
 
 (** Path lookup through [merge_dicts] for type-consistent trees: the merge
     succeeds, stays well-formed, and at every path shows what the update says
@@ -143,10 +143,14 @@ Theorem C03_later_candidates_irrelevant : forall fs fs' loc,
 Proof. exact later_candidates_irrelevant. Qed.
 
 (** WHOLE-SCRIPT THEOREM.  For EVERY file system, EVERY constructor arguments and
-    EVERY script of calls, the correspondence record built from the model's own
-    run (final observation or first exception, plus the snapshot after every
-    call that returned) is accepted by the whole executable specification
-    [C03Corr.spec]: [spec_ok] on the script as executed, and [spec_ok] on every
+    EVERY script of calls -- load calls, then (optionally) edits made through
+    the configuration: assignments, deletions, pop / popitem / clear /
+    setdefault / update, merge() -- the correspondence record built from the
+    model's own run (final observation or first exception, plus the snapshot
+    after every call that returned) is accepted by the whole executable
+    specification [C03Corr.spec] = [spec_loads] && [spec_mods].
+
+    [spec_loads]: [spec_ok] on the script as executed, and [spec_ok] on every
     prefix against the snapshot observed right after it.  Inside [spec_ok] sit
     the guards "the script is a load script ([wf_script])" and "the levels read
     off the script by [supplied_of] are type-consistent and well-formed" -- so
@@ -155,18 +159,46 @@ Proof. exact later_candidates_irrelevant. Qed.
     exactly the settings the environment names, converted by type / the
     documented exception, the suffixes read are the first existing ones, an
     unreadable file that must be read is an error) for the model's run.
+
+    [spec_mods] (Spec/C03ModSpec.v): after every edit that follows a settled,
+    in-scope load script the view is, at EVERY path, nothing where a deletion in
+    force covers the path, else what the highest of the TEN levels defining it
+    says -- the tenth being what the history of edits defines ([ms_mods]: the
+    writes carried out in order; a write cancels the deletions recorded at its
+    path and those below it that the written value defines again); an edit of a
+    missing key raises the documented exception; the environment level and the
+    suffixes stay what they were.  Guards inside [spec_mods]: the ten levels
+    stay type-consistent dictionaries ([scope_now]; judging stops at the first
+    edit that breaks it, which may raise), the history consists of the edits
+    listed above.
+
     The proof composes: closed forms of the fold of calls (Proofs/C03_script.v),
     [supplied_of] = the model's level fields (Proofs/C03_whole.v, [corr_levels],
     [bad_unreadable]), [C03_first_suffix_only], [merge_all_shape]/[oracle]
     ([C03_highest_level_wins]), up-to-date view of settled scripts ([sync_run]),
-    and the environment clause through C16's [load_meets_spec] /
+    the environment clause through C16's [load_meets_spec] /
     [load_never_creates] and the insertion lemmas of Proofs/C16_view_shapes.v
-    (Proofs/C03_envclause.v).
+    (Proofs/C03_envclause.v); for the edits the representation invariant [minv]
+    of Proofs/C03_mods.v (the model's [_modifications] IS [ms_mods], its
+    [_deletions] tree masks exactly the paths [ms_dels] covers, the cache shows
+    "masked -> nothing, else oracle over the ten levels"), established where the
+    edits start ([C03_edits_start_invariant]) and kept by every edit
+    ([C03_edit_step]) with the excise / obliterate / _modify / _remove lemmas of
+    Proofs/C06_shapes.v, C06_track.v, C06_refine.v.
     Guard: the constructor returned ([start fs i = Ok c0]); the other case is
-    the next theorem. *)
+    below. *)
 Theorem C03_whole_script_meets_spec : forall fs i ops c0,
+  start fs i = Ok c0 -> C03Corr.spec (model_case fs i ops) = true.
+Proof. exact whole_script_with_edits_meets_spec. Qed.
+
+(** The two halves of the above. *)
+Theorem C03_load_part_meets_spec : forall fs i ops c0,
   start fs i = Ok c0 -> C03Corr.spec_loads (model_case fs i ops) = true.
 Proof. exact whole_script_meets_spec. Qed.
+
+Theorem C03_edits_meet_spec : forall fs i ops c0,
+  start fs i = Ok c0 -> C03Corr.spec_mods (model_case fs i ops) = true.
+Proof. exact mods_meet_spec. Qed.
 
 (** What [model_case] is: the record whose observations are the model's. *)
 Theorem C03_model_case_is_model_run : forall fs i ops,
@@ -189,8 +221,8 @@ Proof. exact constructor_failure_meets_spec. Qed.
     first call would have replaced the clashing level -- [C03Corr.ops_run]
     judges the first call of the script then; no object exists in reality.) *)
 Theorem C03_constructor_io_failure_any_script : forall fs i ops e,
-  exec fs (b0 i) (init_ops i) = Err e -> C03Corr.spec_loads (model_case fs i ops) = true.
-Proof. exact constructor_io_failure_any_script. Qed.
+  exec fs (b0 i) (init_ops i) = Err e -> C03Corr.spec (model_case fs i ops) = true.
+Proof. exact constructor_io_failure_any_script_edits. Qed.
 
 (** Pieces of the above that read well on their own: every clean prefix of a
     run is accepted on the snapshot taken after it; the call that raised is
@@ -220,6 +252,88 @@ Proof.
   intros fs i ops HF Hnb. destruct (corr_levels fs i ops HF Hnb) as [H1 [H2 [H3 _]]].
   cbv zeta in *. rewrite model_levels_eq. auto.
 Qed.
+
+(** THE EDITS, piece by piece.  [minv S envl c st]: the model state [c] represents
+    the bookkeeping [st] of the specification over the supplied levels [S] with
+    environment level [envl] (see Proofs/C03_mods.v).  It holds where the edits
+    start: after a clean run of a settled load script whose levels are inside
+    the quantifier ... *)
+Theorem C03_edits_start_invariant : forall fs i c0 loads c,
+  start fs i = Ok c0 -> exec fs c0 loads = Ok c -> wf_script loads = true ->
+  tc_ok (supplied_of fs i loads) = true ->
+  scope_now (supplied_of fs i loads) ms0 (c_env c) = true ->
+  minv (supplied_of fs i loads) (c_env c) c ms0.
+Proof. exact start_minv. Qed.
+
+(** ... every call is judged by [mod_step] (decided on the view before it) the
+    way the model behaves: an expected exception is the one raised; an edit
+    that must return does, leaves the environment level and the suffixes alone
+    and -- when the ten levels stay type-consistent -- re-establishes the
+    invariant for the new bookkeeping; [popitem] removes exactly one key of the
+    section ([next]: the view after the call, or nothing when it raised) ... *)
+Theorem C03_edit_step : forall fs S envl c st o next,
+  minv S envl c st ->
+  (next = None \/ next = Some (Node (c_cache (fst (step fs c o))))) ->
+  match mod_step st (Node (c_cache c)) next o with
+  | XOut => True
+  | XErr e => snd (step fs c o) = OErr e
+  | XRet => next = None /\ is_err_out (snd (step fs c o)) = false
+  | XOk st' => same_frame c (fst (step fs c o)) /\
+               (scope_now S st' envl = true ->
+                is_err_out (snd (step fs c o)) = false /\ minv S envl (fst (step fs c o)) st')
+  | XBad => False
+  end.
+Proof. exact sim_step. Qed.
+
+(** ... and it says what the property says: at every path the view shows
+    nothing where a deletion in force covers it, else the answer of the
+    per-setting oracle over the ten levels; so whatever the modifications level
+    defines, and no deletion covers, is visible with the value it gives. *)
+Theorem C03_edited_view_is_oracle : forall S envl c st, minv S envl c st ->
+  forall q, shape_at q (Node (c_cache c)) =
+            if masked_by (ms_dels st) q then None else oracle q (all_levels S st envl).
+Proof. exact edited_view_is_oracle. Qed.
+
+Theorem C03_modifications_visible : forall S envl c st q s, minv S envl c st ->
+  shape_at q (Node (ms_mods st)) = Some s -> masked_by (ms_dels st) q = false ->
+  shape_at q (Node (c_cache c)) = Some s.
+Proof. exact modifications_visible. Qed.
+
+(** Non-vacuity for the edits: a nested setting defined by two levels is deleted,
+    then its parent section is assigned a dict that defines it again; the script
+    is inside every guard of [spec_mods] and judged to the end ([with_mods]),
+    and the setting is visible with the value the modifications level gives,
+    next to what the lower levels supply for the section. *)
+Example C03_edits_example :
+  let i := mkInit (Node [("s", Node [("x", Leaf (VInt 1)); ("y", Leaf (VInt 2))])])
+                  (Node [("s", Node [("y", Leaf (VInt 20))])]) None None true in
+  let ops := [Merge; Del Item ["s"] "x"; SetV Attr [] "s" (Node [("x", Leaf (VInt 7))]); Merge] in
+  (exists c0, start [] i = Ok c0) /\
+  with_mods (model_case [] i ops) = true /\
+  match c_obs (model_case [] i ops) with
+  | Ok (v, _, _) => shape_at ["s"; "x"] v = Some (SLeaf (VInt 7)) /\
+                    shape_at ["s"; "y"] v = Some (SLeaf (VInt 20))
+  | Err _ => False
+  end /\
+  match nth_error (c_mids (model_case [] i ops)) 1 with
+  | Some (v, _, _) => shape_at ["s"; "x"] v = None
+  | None => False
+  end.
+Proof. vm_compute. split; [eexists; reflexivity|]. repeat split; reflexivity. Qed.
+
+(** The specification has teeth there: the same script observed with the
+    re-defined setting still invisible is rejected; observed as above, accepted. *)
+Example C03_spec_rejects_lost_rewrite :
+  let i := mkInit (Node [("s", Node [("x", Leaf (VInt 1)); ("y", Leaf (VInt 2))])])
+                  (Node [("s", Node [("y", Leaf (VInt 20))])]) None None true in
+  let ops := [Merge; Del Item ["s"] "x"; SetV Attr [] "s" (Node [("x", Leaf (VInt 7))])] in
+  let snap v : snap3 := (v, Node [], [None; None; None]) in
+  let v0 := Node [("s", Node [("x", Leaf (VInt 1)); ("y", Leaf (VInt 20))])] in
+  let v1 := Node [("s", Node [("y", Leaf (VInt 20))])] in
+  let good := Node [("s", Node [("y", Leaf (VInt 20)); ("x", Leaf (VInt 7))])] in
+  C03Corr.spec (mk [] i ops (Ok (snap v1)) [snap v0; snap v1; snap v1]) = false /\
+  C03Corr.spec (mk [] i ops (Ok (snap good)) [snap v0; snap v1; snap good]) = true.
+Proof. vm_compute. split; reflexivity. Qed.
 
 (** Non-vacuity of the whole-script theorem: a script inside every guard (a
     load script, type-consistent levels, constructor returns), ending with the
